@@ -17,6 +17,7 @@ CLAIMS = {
  "C05": ("proof", "Theorems C05_placement / C05_distinct_threads (an input-free Async provider is preceded in its thread only by input-free synchronous providers, for every accepted declaration; uses the real pool heuristic, Kahn prefix and the matching lower bound) and C05_targets_reachable (schedule construction).", PLAN_NOTE + " Open until merged: the single exists-schedule statement over the emitted program.", "Lean 4 proof + differential correspondence"),
  "C09": ("proof", "Theorems C09_no_cycle_accepted (whenever the planner accepts, every edge goes forward in the emission order: a cycle can never be accepted) and C09_no_write_on_refusal (regenerated call order of processFile: all planning precedes os.Create; errors propagate to exit 1). The reference classifier written from the statement (cycle / duplicate incl. bindings and fields / orphan Struct) is compared with the real planner's verdict on every sampled declaration incl. planted defects.", PLAN_NOTE + " Known finding: identity injector refused.", "Lean 4 proof (partial) + differential correspondence against a reference classifier"),
  "C10": ("proof", "Theorems C10_ctx_first, C10_no_async, C10_params_are_args over KV.sigArgs; the signature the statement determines (reference written from the statement) is compared with the real Injector's parameter list and error flag on every sampled declaration.", PLAN_NOTE + " Open until merged: characterisation of argument nodes as the unsupplied types of needed providers at the level of KV.plan.", "Lean 4 proof (partial) + differential correspondence against a reference signature"),
+ "C12": ("proof", "Theorems C12_fresh (over every pool and every request history the names handed out are pairwise distinct, none was in use before - reserved word, predeclared identifier, package-level name, earlier generated name - and all are in use afterwards), C12_total (the allocator always answers), C12_reserved_complete / C12_seed_reserved over the reserved lists regenerated from const.go. The model is compared with the real VarPool on 20k (quick) / 300k (thorough) adversarial histories, and freshness is judged directly on the implementation's answers. Holds after the fix: commit 58c4ba8.", "Trusted: Lean kernel (+propext, Classical.choice, Quot.sound); the model VP.getNameFix is tied to VarPool by differential correspondence; base names are ASCII; hard-coded locals of the emitter (eg, ctx, ch, zero, err) are outside the allocator and belong to C04.", "Lean 4 proof (invariant over request histories + pigeonhole totality) + differential correspondence"),
  "C15": ("proof", "Lean theorems C15_crash / C15_rerun / C15_fault hold for every previous destination state, content, crash step and torn-write length; they are stated about the step list and deferred clean-up regenerated from install.go on every run and follow from a general soundness theorem for a symbolic interpreter plus kernel evaluation of decidable checks on the regenerated list. The complete crash/fault matrix of the real CLI (every hook point, torn writes, several prior states) is compared with the model's predicted state.", "Trusted: Lean kernel (+propext, Classical.choice, Quot.sound), factgen's reading of InstallFile, the semantics KV/InstallModel.lean gives each step, POSIX rename atomicity. OS crash / power loss is outside the statement (process crash only). Tree-level lifting over Install's walk is checked dynamically, not yet proved.", "Lean 4 proof over regenerated facts + exhaustive crash/fault correspondence"),
  "C16": ("proof", "Lean theorems C16_root (for every registered agent, custom path, --user, $HOME and cwd the resolved base is the documented one), C16_cli, C16_table, C16_tree over the agent registry / kong sub-commands / README table / ResolvePath branch order regenerated from the source; the finite agent table is decided by kernel evaluation. The real CLI is run over all agents x 5 flag combinations x prior states with before/after snapshots of $HOME, cwd and an unrelated directory.", "Trusted: Lean kernel, factgen, filepath.Abs/Join, kong dispatch (validated by running every sub-command). 'Nothing else is touched' and byte-identity of the tree are established by the exhaustive snapshot matrix, not by a theorem.", "Lean 4 proof over regenerated tables + exhaustive CLI matrix"),
 }
